@@ -6,17 +6,34 @@ import Juniper.Pinned.TreeAccess
 
 namespace Juniper.Props.PinTreeAccess
 
+theorem pin_container_tree_backwardIterator_Next_ok : Juniper.Gen.PinTreeAccess.pin_container_tree_backwardIterator_Next = Juniper.Pinned.TreeAccess.pin_container_tree_backwardIterator_Next := by rfl
 theorem pin_container_tree_btree_Contains_ok : Juniper.Gen.PinTreeAccess.pin_container_tree_btree_Contains = Juniper.Pinned.TreeAccess.pin_container_tree_btree_Contains := by rfl
+theorem pin_container_tree_btree_Cursor_ok : Juniper.Gen.PinTreeAccess.pin_container_tree_btree_Cursor = Juniper.Pinned.TreeAccess.pin_container_tree_btree_Cursor := by rfl
 theorem pin_container_tree_btree_Get_ok : Juniper.Gen.PinTreeAccess.pin_container_tree_btree_Get = Juniper.Pinned.TreeAccess.pin_container_tree_btree_Get := by rfl
 theorem pin_container_tree_btree_Put_ok : Juniper.Gen.PinTreeAccess.pin_container_tree_btree_Put = Juniper.Pinned.TreeAccess.pin_container_tree_btree_Put := by rfl
 theorem pin_container_tree_btree_insertIntoLeaf_ok : Juniper.Gen.PinTreeAccess.pin_container_tree_btree_insertIntoLeaf = Juniper.Pinned.TreeAccess.pin_container_tree_btree_insertIntoLeaf := by rfl
 theorem pin_container_tree_btree_overfill_ok : Juniper.Gen.PinTreeAccess.pin_container_tree_btree_overfill = Juniper.Pinned.TreeAccess.pin_container_tree_btree_overfill := by rfl
 theorem pin_container_tree_btree_searchNode_ok : Juniper.Gen.PinTreeAccess.pin_container_tree_btree_searchNode = Juniper.Pinned.TreeAccess.pin_container_tree_btree_searchNode := by rfl
+theorem pin_container_tree_cursor_Key_ok : Juniper.Gen.PinTreeAccess.pin_container_tree_cursor_Key = Juniper.Pinned.TreeAccess.pin_container_tree_cursor_Key := by rfl
+theorem pin_container_tree_cursor_Next_ok : Juniper.Gen.PinTreeAccess.pin_container_tree_cursor_Next = Juniper.Pinned.TreeAccess.pin_container_tree_cursor_Next := by rfl
+theorem pin_container_tree_cursor_Prev_ok : Juniper.Gen.PinTreeAccess.pin_container_tree_cursor_Prev = Juniper.Pinned.TreeAccess.pin_container_tree_cursor_Prev := by rfl
+theorem pin_container_tree_cursor_SeekFirst_ok : Juniper.Gen.PinTreeAccess.pin_container_tree_cursor_SeekFirst = Juniper.Pinned.TreeAccess.pin_container_tree_cursor_SeekFirst := by rfl
+theorem pin_container_tree_cursor_SeekFirstGreater_ok : Juniper.Gen.PinTreeAccess.pin_container_tree_cursor_SeekFirstGreater = Juniper.Pinned.TreeAccess.pin_container_tree_cursor_SeekFirstGreater := by rfl
+theorem pin_container_tree_cursor_SeekFirstGreaterOrEqual_ok : Juniper.Gen.PinTreeAccess.pin_container_tree_cursor_SeekFirstGreaterOrEqual = Juniper.Pinned.TreeAccess.pin_container_tree_cursor_SeekFirstGreaterOrEqual := by rfl
+theorem pin_container_tree_cursor_SeekLast_ok : Juniper.Gen.PinTreeAccess.pin_container_tree_cursor_SeekLast = Juniper.Pinned.TreeAccess.pin_container_tree_cursor_SeekLast := by rfl
+theorem pin_container_tree_cursor_SeekLastLess_ok : Juniper.Gen.PinTreeAccess.pin_container_tree_cursor_SeekLastLess = Juniper.Pinned.TreeAccess.pin_container_tree_cursor_SeekLastLess := by rfl
+theorem pin_container_tree_cursor_SeekLastLessOrEqual_ok : Juniper.Gen.PinTreeAccess.pin_container_tree_cursor_SeekLastLessOrEqual = Juniper.Pinned.TreeAccess.pin_container_tree_cursor_SeekLastLessOrEqual := by rfl
+theorem pin_container_tree_cursor_find_ok : Juniper.Gen.PinTreeAccess.pin_container_tree_cursor_find = Juniper.Pinned.TreeAccess.pin_container_tree_cursor_find := by rfl
 theorem pin_container_tree_cursor_lost_ok : Juniper.Gen.PinTreeAccess.pin_container_tree_cursor_lost = Juniper.Pinned.TreeAccess.pin_container_tree_cursor_lost := by rfl
+theorem pin_container_tree_cursor_seek_ok : Juniper.Gen.PinTreeAccess.pin_container_tree_cursor_seek = Juniper.Pinned.TreeAccess.pin_container_tree_cursor_seek := by rfl
 theorem pin_container_tree_cursor_valueUnchecked_ok : Juniper.Gen.PinTreeAccess.pin_container_tree_cursor_valueUnchecked = Juniper.Pinned.TreeAccess.pin_container_tree_cursor_valueUnchecked := by rfl
 theorem pin_container_tree_forwardIterator_Next_ok : Juniper.Gen.PinTreeAccess.pin_container_tree_forwardIterator_Next = Juniper.Pinned.TreeAccess.pin_container_tree_forwardIterator_Next := by rfl
 theorem pin_container_tree_insertOne_ok : Juniper.Gen.PinTreeAccess.pin_container_tree_insertOne = Juniper.Pinned.TreeAccess.pin_container_tree_insertOne := by rfl
+theorem pin_container_tree_leftmostLeaf_ok : Juniper.Gen.PinTreeAccess.pin_container_tree_leftmostLeaf = Juniper.Pinned.TreeAccess.pin_container_tree_leftmostLeaf := by rfl
 theorem pin_container_tree_newAmalgam1_ok : Juniper.Gen.PinTreeAccess.pin_container_tree_newAmalgam1 = Juniper.Pinned.TreeAccess.pin_container_tree_newAmalgam1 := by rfl
+theorem pin_container_tree_node_leaf_ok : Juniper.Gen.PinTreeAccess.pin_container_tree_node_leaf = Juniper.Pinned.TreeAccess.pin_container_tree_node_leaf := by rfl
+theorem pin_container_tree_rightmostLeaf_ok : Juniper.Gen.PinTreeAccess.pin_container_tree_rightmostLeaf = Juniper.Pinned.TreeAccess.pin_container_tree_rightmostLeaf := by rfl
+theorem pin_xslices_Index_ok : Juniper.Gen.PinTreeAccess.pin_xslices_Index = Juniper.Pinned.TreeAccess.pin_xslices_Index := by rfl
 theorem pin_container_tree_type_Bound_ok : Juniper.Gen.PinTreeAccess.pin_container_tree_type_Bound = Juniper.Pinned.TreeAccess.pin_container_tree_type_Bound := by rfl
 theorem pin_container_tree_type_KVPair_ok : Juniper.Gen.PinTreeAccess.pin_container_tree_type_KVPair = Juniper.Pinned.TreeAccess.pin_container_tree_type_KVPair := by rfl
 theorem pin_container_tree_type_Map_ok : Juniper.Gen.PinTreeAccess.pin_container_tree_type_Map = Juniper.Pinned.TreeAccess.pin_container_tree_type_Map := by rfl
@@ -29,5 +46,6 @@ theorem pin_container_tree_type_cursor_ok : Juniper.Gen.PinTreeAccess.pin_contai
 theorem pin_container_tree_type_forwardIterator_ok : Juniper.Gen.PinTreeAccess.pin_container_tree_type_forwardIterator = Juniper.Pinned.TreeAccess.pin_container_tree_type_forwardIterator := by rfl
 theorem pin_container_tree_type_node_ok : Juniper.Gen.PinTreeAccess.pin_container_tree_type_node = Juniper.Pinned.TreeAccess.pin_container_tree_type_node := by rfl
 theorem pin_container_tree_vars_ok : Juniper.Gen.PinTreeAccess.pin_container_tree_vars = Juniper.Pinned.TreeAccess.pin_container_tree_vars := by rfl
+theorem pin_xslices_vars_ok : Juniper.Gen.PinTreeAccess.pin_xslices_vars = Juniper.Pinned.TreeAccess.pin_xslices_vars := by rfl
 
 end Juniper.Props.PinTreeAccess
